@@ -7,10 +7,50 @@ import (
 )
 
 // RemoveMatchComments removes pattern matched comments from file.Comments.
+// A comment group that loses all of its lines is dropped from the file and
+// detached from the node it documents: an empty group has no position.
 func RemoveMatchComments(file *ast.File, pattern *regexp.Regexp) {
+	emptied := make(map[*ast.CommentGroup]bool)
+	groups := make([]*ast.CommentGroup, 0, len(file.Comments))
 	for _, group := range file.Comments {
 		_ = ExtractMatchComments(group, pattern)
+		if len(group.List) == 0 {
+			emptied[group] = true
+			continue
+		}
+		groups = append(groups, group)
 	}
+	if len(emptied) == 0 {
+		return
+	}
+
+	file.Comments = groups
+	detach := func(groups ...**ast.CommentGroup) {
+		for _, g := range groups {
+			if *g != nil && emptied[*g] {
+				*g = nil
+			}
+		}
+	}
+	ast.Inspect(file, func(node ast.Node) bool {
+		switch n := node.(type) {
+		case *ast.File:
+			detach(&n.Doc)
+		case *ast.GenDecl:
+			detach(&n.Doc)
+		case *ast.FuncDecl:
+			detach(&n.Doc)
+		case *ast.ImportSpec:
+			detach(&n.Doc, &n.Comment)
+		case *ast.ValueSpec:
+			detach(&n.Doc, &n.Comment)
+		case *ast.TypeSpec:
+			detach(&n.Doc, &n.Comment)
+		case *ast.Field:
+			detach(&n.Doc, &n.Comment)
+		}
+		return true
+	})
 }
 
 // MatchComments reports whether any comment line in commentGroup contains
